@@ -173,7 +173,7 @@ def hp_float(d, m, s):
     return float('%d.%02d%0*d' % (d, m, nd + 2, sn))
 
 
-VARIANTS = ['assigned', 'string', 'strobj', 'reassigned']
+VARIANTS = ['assigned', 'string', 'strobj', 'reassigned', 'result']
 
 
 def form_of(raw):
@@ -227,8 +227,12 @@ def build(notation, raw, rec=None, case=None):
         cls = ga.DMSAngle if notation == 'dms' else ga.DDMAngle
         fields = list(raw[2:-1])
         names = ['degree', 'minute', 'second'][:len(fields)]
-        if var in ('assigned', 'reassigned'):
-            o = cls(*([12, 34, 56.789] if notation == 'dms' else [12, 34.56789]), positive=not pos)
+        if var in ('assigned', 'reassigned', 'result'):
+            if var == 'result':
+                # an object returned by the library itself (conversion of another angle), then edited by the caller
+                o = (ga.dec2dms if notation == 'dms' else ga.dec2ddm)(-12.58244138888889 if pos else 12.58244138888889)
+            else:
+                o = cls(*([12, 34, 56.789] if notation == 'dms' else [12, 34.56789]), positive=not pos)
             if var == 'reassigned':
                 # the object has been used before its fields change
                 o.dec(), o.hp(), o.rad(), str(o), o == o, hash(repr(o))
